@@ -31,10 +31,12 @@ TABLES = {
     "space": "20= \n21=a \n22=a\n",
     "leading-blank": "80= t\n81=t\n82= \n83=\tq\n84=q\n",
     "quote": "27='\n01=a\n02=a'\n03=b\n",
+    # entry texts that str.splitlines() would treat as line ends (the table file's lines end at newlines only)
+    "linebreak-chars": "fc=\x0c\nfb=\x0b\n85=\x85\n1c=\x1c\n01=a\n02=a\x0cb\n",
 }
 # .text literals with an escaped quote (first, last, in the middle, doubled); the backslash has no table entry
 QUOTE_TEMPLATES = ["\\'", "?\\'", "\\'?", "?\\'?", "?\\'\\'"]
-QUICK_TABLES = ["single", "overlap", "multibyte", "brackets", "nested", "twobyte", "digits", "longest3", "ignore", "leading-blank", "quote"]
+QUICK_TABLES = ["single", "overlap", "multibyte", "brackets", "nested", "twobyte", "digits", "longest3", "ignore", "leading-blank", "quote", "linebreak-chars"]
 
 # string templates: '?' = free symbolic character, 'h' = symbolic hex digit, others literal
 # 'L' = the first character of the table's first entry (a literal run in front of an escape: the escape then starts
@@ -44,8 +46,8 @@ TEMPLATES_THOROUGH = TEMPLATES_QUICK + ["????", "?[0xhh]?", "[0xhh][0xhh]", "??[
 
 META = {
     "bounds": {
-        "quick": "11 tables x 13 string templates (up to 3 free symbolic characters over the table alphabet + '[' ']' '0' 'x' + two unknown characters; escapes with symbolic hex digits); codec API and .text directive (top level, inherited scope, scope with its own table); literals with escaped quotes (first / last / middle / doubled) over a table with an entry for the quote",
-        "thorough": "16 tables x 19 templates (up to 4 free characters, two escapes)",
+        "quick": "12 tables x 13 string templates (up to 3 free symbolic characters over the table alphabet + '[' ']' '0' 'x' + two unknown characters; escapes with symbolic hex digits); codec API and .text directive (top level, inherited scope, scope with its own table); literals with escaped quotes (first / last / middle / doubled) over a table with an entry for the quote",
+        "thorough": "17 tables x 19 templates (up to 4 free characters, two escapes)",
     },
     "outside": ["escapes with 1 or >= 3 hex digits (statement says NN): any behaviour accepted", "characters above 255", "strings longer than the templates", "backslash (other than escaping a quote) / newline inside the .text literal; tables with an entry for the backslash"],
     "oracle": "oracles/table.py: independent .tbl parser and longest-match tokeniser, executed relative to the implementation's path condition (vf/oraclex.py)",
